@@ -132,7 +132,9 @@ def rule_E4(F, R, include_tests=False):
                     R.violation('%s / E4 / Rc::new' % name, 'E4', 'a diagram node is allocated outside mk_choice/new/From: it is not in the unique table', e['loc'])
             if decl == 'std::default::Default::default' and ty_is_rc_bdd(e['ty']):
                 R.count('E4:Rc<BDD>::default-sites')
-                ok = (c.name == 'rsbdd' and c.kind == 'executable' and name == 'rsbdd::main')
+                # the CLI's placeholder before the first evaluation: in main, or in a new helper that main was split into
+                helpers_of_main = {callee for (caller, callee) in getattr(c, 'inlined', []) if caller == 'rsbdd::main'}
+                ok = (c.name == 'rsbdd' and c.kind == 'executable' and (name == 'rsbdd::main' or name in helpers_of_main))
                 R.obligation(ok, 'E4 default %s' % name)
                 if not ok:
                     R.violation('%s / E4 / Rc::default' % name, 'E4', 'a fresh leaf outside the table is created', e['loc'])
